@@ -5,6 +5,7 @@ import (
 	"math/rand"
 	"runtime"
 	"strings"
+	"time"
 
 	protocol "github.com/hujm2023/go-sms-protocol"
 	"github.com/hujm2023/go-sms-protocol/datacoding"
@@ -239,7 +240,16 @@ func runBatch(c Case, tr *Tracer) {
 			var parts [][]byte
 			var actual datacoding.ProtocolDataCoding
 			var err error
-			pan := guard(func() { parts, actual, err = b.Build(context.Background()) })
+			ctx, cancel := context.Background(), func() {}
+			switch caseInt(c, "t") % 5 {
+			case 1: // a context that is over already
+				ctx, cancel = context.WithCancel(ctx)
+				cancel()
+			case 2: // ... or ends while Build runs
+				ctx, cancel = context.WithTimeout(ctx, 50*time.Microsecond)
+			}
+			pan := guard(func() { parts, actual, err = b.Build(ctx) })
+			cancel()
 			coding := -1
 			if err == nil && !pan && actual != nil {
 				switch a := actual.(type) {
